@@ -170,6 +170,12 @@ func TestC06_History(t *testing.T) {
 		// cross-backend replay: every node must accept every block and end with identical state
 		if other != "none" {
 			opt := sim.Options{ZoneBackend: other}
+			// half of the replays run the zone node with the state snapshot enabled (the production
+			// default), the first hierarchy runs without
+			if rapid.Bool().Draw(t, "replaySnapshot") {
+				opt.Nodes[sim.Zone].SnapshotLimit = 16
+				other += "+snapshot"
+			}
 			f, err := sim.NewNet(opt)
 			if err != nil {
 				t.Fatalf("HARNESS: replay net: %v", err)
